@@ -16,21 +16,28 @@ NearOk(nr) ==
                /\ ~FrameAt(nr, 0, Len(nr)).is
                /\ LET evs == D!Run(D!InitDec(D!CapInf), nr).evs IN
                   Len(evs) = 1 /\ evs[1][1] = Len(nr) /\ evs[1][2].k \in {"invmsg", "invesc"}
-RECURSIVE Layout(_, _, _, _, _, _, _)
+RECURSIVE Layout(_, _, _, _, _, _, _, _)
 \* slots <<kind, pos, arg>>: kind "disc" (arg n), "err" (a near-frame ends at pos), "val" (arg file index), "eof" (arg n).
 \* Between two files (and before the first / after the last): noise[i], then optionally a near-frame near[i], then
-\* - only behind a near-frame - more noise post[i].
-Layout(files, noise, near, post, i, off, acc) ==
+\* - only behind a near-frame - more noise post[i].  After the last of these the input may end in a cut-off
+\* transmission `tail` (a start sequence and a body without 0x1b): the noise before it is reported when its start
+\* sequence completes, and the end of input costs exactly Len(tail) bytes.
+Layout(files, noise, near, post, tail, i, off, acc) ==
   LET g == noise[i] nr == near[i] ps == post[i]
-      a1 == IF Len(g) > 0 /\ (Len(nr) > 0 \/ i <= Len(files)) THEN Append(acc, <<"disc", off + Len(g) + 8, Len(g)>>) ELSE acc
+      more == i <= Len(files) \/ Len(tail) > 0
+      a1 == IF Len(g) > 0 /\ (Len(nr) > 0 \/ more) THEN Append(acc, <<"disc", off + Len(g) + 8, Len(g)>>) ELSE acc
       a2 == IF Len(nr) > 0 THEN Append(a1, <<"err", off + Len(g) + Len(nr), 0>>) ELSE a1
       o2 == off + Len(g) + Len(nr)
-      a3 == IF Len(ps) > 0 /\ i <= Len(files) THEN Append(a2, <<"disc", o2 + Len(ps) + 8, Len(ps)>>) ELSE a2
+      a3 == IF Len(ps) > 0 /\ more THEN Append(a2, <<"disc", o2 + Len(ps) + 8, Len(ps)>>) ELSE a2
       o3 == o2 + Len(ps)
   IN IF i > Len(files)
-     THEN LET left == IF Len(nr) = 0 THEN Len(g) ELSE Len(ps) IN
-          [slots |-> IF left > 0 THEN Append(a3, <<"eof", o3, left>>) ELSE a3, T |-> o3]
-     ELSE LET f == Canonical(files[i]) IN Layout(files, noise, near, post, i + 1, o3 + Len(f), Append(a3, <<"val", o3 + Len(f), i>>))
+     THEN IF Len(tail) > 0
+          THEN [slots |-> Append(a3, <<"eof", o3 + Len(tail), Len(tail)>>), T |-> o3 + Len(tail)]
+          ELSE LET left == IF Len(nr) = 0 THEN Len(g) ELSE Len(ps) IN
+               [slots |-> IF left > 0 THEN Append(a3, <<"eof", o3, left>>) ELSE a3, T |-> o3]
+     ELSE LET f == Canonical(files[i]) IN Layout(files, noise, near, post, tail, i + 1, o3 + Len(f), Append(a3, <<"val", o3 + Len(f), i>>))
+
+TailOk(t) == t = <<>> \/ (Len(t) >= 8 /\ SubSeq(t, 1, 8) = StartSeq /\ \A k \in 9..Len(t) : t[k] # 27)
 
 RECURSIVE Concat(_, _, _, _, _)
 Concat(files, noise, near, post, i) ==
@@ -60,10 +67,11 @@ StripPos(res) == IF Len(res) = 3 /\ res[2] = 0 THEN <<res[1], 0, SubSeq(res[3], 
                  ELSE IF Len(res) = 3 /\ res[2] = 10 THEN <<res[1], 10>> ELSE res
 
 Mon(r) ==
-  LET lay == Layout(r.files, r.noise, r.near, r.post, 1, 0, <<>>) IN
+  LET lay == Layout(r.files, r.noise, r.near, r.post, r.tail, 1, 0, <<>>) IN
+  /\ TailOk(r.tail)
   /\ Len(r.noise) = Len(r.files) + 1 /\ Len(r.near) = Len(r.noise) /\ Len(r.post) = Len(r.noise)
   /\ \A x \in 1..Len(r.near) : NearOk(r.near[x]) /\ (r.near[x] = <<>> => r.post[x] = <<>>)
-  /\ r.stream = Concat(r.files, r.noise, r.near, r.post, 1)
+  /\ r.stream = Concat(r.files, r.noise, r.near, r.post, 1) \o r.tail
   /\ Len(r.res) = Len(r.calls) /\ Len(r.hand) = Len(r.calls)
   /\ Len(r.calls) >= Len(lay.slots) + 1                       \* at least one call past the end
   /\ \A j \in 1..Len(r.calls) :
